@@ -2974,16 +2974,24 @@ def arange(*args: Any, **kwargs: Any) -> Array:
             dtype=None)
 
     # Yuck. Thanks, numpy developers. ;)
-    if isinstance(args[-1], np.dtype):
+    if args and isinstance(args[-1], np.dtype):
         inf.dtype = args[-1]
         args = args[:-1]
         explicit_dtype = True
 
     argc = len(args)
     if argc == 0:
-        raise TypeError("stop argument required")
+        # stop must then be given by keyword
+        pass
     elif argc == 1:
-        inf.stop, = args
+        if "stop" in kwargs:
+            # as in numpy: arange(start, stop=stop)
+            inf.start, = args
+        elif "start" in kwargs:
+            raise TypeError(
+                    "may not specify 'start' by position and keyword")
+        else:
+            inf.stop, = args
     elif argc == 2:
         inf.start, inf.stop = args
     elif argc == 3:
@@ -3005,6 +3013,8 @@ def arange(*args: Any, **kwargs: Any) -> Array:
         else:
             raise TypeError(f"unexpected keyword argument '{k}'")
 
+    if inf.stop is None:
+        raise TypeError("stop argument required")
     if inf.start is None:
         inf.start = 0
     if inf.step is None:
